@@ -100,7 +100,10 @@ CHECKS = {
              "decidable hypothesis on the ORIGINAL schema about the parts substitution leaves untouched - the result is "
              "sat, so for every world and every tape the generator returns a value the result accepts; "
              "sat_alone_is_not_preserved shows the hypothesis cannot be plain sat). hsatb is evaluated inside Coq for the "
-             "schema of every plain case of a run; where it holds the usability oracle on /repo accepts no excuse.",
+             "schema of every plain case of a run; where it holds the usability oracle on /repo accepts no excuse. "
+             "subst_chain_only_substerr / subst_chain_idempotent_at_end: chains ((S % v1) % v2) ... % vn of plain values, any "
+             "length, end in a schema or in SubstitutionError and are idempotent in their last value; on /repo second values "
+             "are substituted into a quarter of the successful container results (outcome class, idempotence).",
         note=COMMON_NOTE + "No open known finding. F08, F09, F10 (NaN), F11, F22, F28, F31 (a '...' member of "
              "an untyped dict), F38 (the substitutor's own messages for values repr() cannot print), F40 (paths holding such a key) were repaired by fix: commits.",
         technique="Coq proof (outcome-class invariant + fixpoint lemma by nested induction over schemas and values) + vm_compute correspondence + direct oracle",
